@@ -21,6 +21,9 @@ def add_argument(ex, p, args, kwargs, e):
     return VNone()
 
 
+PY_OPTIONALS = [False]
+
+
 def given_const(dest, spec):
     """The value argparse stores for `dest`, as a stable symbolic constant (so that specifications can refer to it)."""
     name = 'arg_' + dest
@@ -29,6 +32,7 @@ def given_const(dest, spec):
     if spec.get('nargs') == '+':
         if ty != 'int': raise Undecided('nargs type')
         return VPy(z3.Const(name, Py))       # None or a non-empty list of ints (constraint added by parse_args)
+    if ty == 'int' and not req and PY_OPTIONALS[0]: return VPy(z3.Const(name, Py))      # None | int, dynamically typed
     if ty == 'int': return VInt(z3.Int(name)) if req else VOpt(z3.Const(name, Opt))
     if ty == 'float': return VReal(z3.Real(name)) if req else VOptR(z3.Const(name, OptR))
     if ty == 'str' or ty is None: return VStr([('opaque', name)])
@@ -37,6 +41,7 @@ def given_const(dest, spec):
 
 def parse_args(ex, p, args, kwargs, e):
     parser = args[0]
+    PY_OPTIONALS[0] = bool(getattr(ex, 'argparse_py', False))
     oid = ex.new_oid(); p.objs[oid] = {}
     fixed = getattr(ex, 'argv_fixed', {})
     for spec in parser.data['args']:
@@ -44,8 +49,8 @@ def parse_args(ex, p, args, kwargs, e):
         if d in fixed: v = VStr([fixed[d]])
         else: v = given_const(d, spec)
         if isinstance(v, VPy):
-            lst = Py.l(v.t)
-            p.assume(z3.Or(Py.is_pnone(v.t), z3.And(Py.is_plist(v.t), list_sort('int').len(lst) >= 1)))
+            if spec.get('nargs') == '+': p.assume(z3.Or(Py.is_pnone(v.t), z3.And(Py.is_plist(v.t), list_sort('int').len(Py.tail(v.t)) >= 0)))
+            else: p.assume(z3.Or(Py.is_pnone(v.t), Py.is_pint(v.t)))
         p.objs[oid][d] = v
     ex.parsed_specs = {s['dest']: s for s in parser.data['args']}
     return VObj(oid, 'Namespace')
